@@ -39,7 +39,7 @@ ASSUMPTIONS = ["sibling names differ in >= 2 of their padded character positions
                "or pair a sibling; multi-byte damage that would make the damaged name equal to a sibling's is skipped",
                "the output *file name* of a sibling is not constrained, only its listed name/type and its audio"]
 EXPECTED_PROBES = ["akai", "roland", "fault_in_name", "fault_in_type", "fault_in_size", "fault_in_start", "fault_in_fat_entry", "fault_in_cluster_top",
-                   "fault_in_loop_point", "fault_in_options", "multi_byte_fault", "damaged_item_disappeared", "damaged_item_changed", "rot_read"]
+                   "fault_in_loop_point", "fault_in_options", "multi_byte_fault", "name_copied_from_earlier_sibling", "damaged_item_disappeared", "damaged_item_changed", "rot_read"]
 SHRINK = {"max_attempts": 150, "max_seconds": 120.0, "simple_values": {"policy": ["contiguous"], "block": [4096]}}
 
 AK_FIELDS = [("name", 0, 12), ("pad", 12, 4), ("type", 16, 1), ("size", 17, 3), ("start", 20, 2), ("pad2", 22, 2)]
@@ -147,6 +147,14 @@ def gen(rng: random.Random, tier: str, index: int) -> dict:
                 off = fld[1] + rng.randrange(fld[2])
                 val = rng.choice([0, 1, 2, 3, 0x0A, 0x28, 0x29, 0x64, 0x70, 0x71, 0x73, 0x78, 0xF0, 0xF3, 0xFF, 0x7F, 0x80, rng.getrandbits(8), rng.getrandbits(8)])
                 faults.append([[off, val]])
+        if entry > 0 and rng.random() < 0.5:
+            # the damaged name now reads exactly like an EARLIER sibling's: that sibling keeps its name (the first of two
+            # equal names is never renamed) and must keep its audio
+            src = files[rng.randrange(entry)]["name"]
+            nb = list(A.akname(src))
+            faults.append([[j, nb[j]] for j in range(12)])
+            if rng.random() < 0.5:
+                faults.append([[j, nb[j]] for j in range(12)] + [[16, files[rng.randrange(entry)]["ftype"]]])
         return {"fmt": "akai", "model": model, "vol": [0, len(vols) - 1], "entry": entry, "faults": faults, "block": rng.choice([4096, 4096, 510])}
     ns = rng.randint(2, 5)
     names = _far_names(rng, ns, 16, "abcdefghijkmnopqstuvwxyzABCDEFGHIJKMNOPQSTUVWXYZ0123456789", ["Piano", "Strings", "Brass", "Choir", "Kick", "Snare", "Bass", "Pad", "Bell"])
@@ -263,10 +271,12 @@ def run(sc: dict) -> RunResult:
             if all(img[o] == v for o, v in rot.items()):
                 continue          # not a damage
             # skip multi-byte damage that would turn the damaged name into a sibling's name
-            if len(fault) > 1 and _name_collides(fmt, img, rot, rec_off, sib_names):
+            if len(fault) > 1 and _name_collides(fmt, img, rot, rec_off, sib_names, earlier_ok=sc["entry"]):
                 continue
             if len(fault) > 1:
                 res.probes["multi_byte_fault"] += 1
+                if len(fault) >= 12 and [o for o, _ in fault[:12]] == list(range(12)):
+                    res.probes["name_copied_from_earlier_sibling"] += 1
             for f in flds:
                 key = {"name": "fault_in_name", "pname": "fault_in_name", "type": "fault_in_type", "ftype": "fault_in_type", "size": "fault_in_size",
                        "start": "fault_in_start", "fat_entry": "fault_in_fat_entry", "cluster_top": "fault_in_cluster_top", "loop_point": "fault_in_loop_point",
@@ -348,7 +358,7 @@ def _channels(er: tool.ExportResult, prefix: str) -> set:
     return out
 
 
-def _name_collides(fmt: str, img: bytes, rot: Dict[int, int], rec_off: int, sib_names: Dict[int, str]) -> bool:
+def _name_collides(fmt: str, img: bytes, rot: Dict[int, int], rec_off: int, sib_names: Dict[int, str], earlier_ok: int = -1) -> bool:
     n = 12 if fmt == "akai" else 16
     raw = bytearray(img[rec_off:rec_off + n])
     for o, v in rot.items():
@@ -363,4 +373,10 @@ def _name_collides(fmt: str, img: bytes, rot: Dict[int, int], rec_off: int, sib_
     else:
         s = raw.decode("latin-1")
     s = s.strip().upper()
-    return any(s == x.strip().upper() or sum(1 for a, b in zip(s.ljust(n), x.upper().ljust(n)) if a != b) < 2 for x in sib_names.values())
+    for i, x in sib_names.items():
+        near = s == x.strip().upper() or sum(1 for a, b in zip(s.ljust(n), x.upper().ljust(n)) if a != b) < 2
+        if near and fmt == "akai" and i < earlier_ok and s == x.strip().upper():
+            continue        # an exact copy of an earlier sibling's name: that sibling keeps its name, so the fault is admissible
+        if near:
+            return True
+    return False
